@@ -156,6 +156,29 @@ pub struct KnownFinding {
     pub class: String,
     pub what: String,
     pub witness: String,
+    /// If set, the finding is identified by a property of the input, not by its class: it covers the budget
+    /// violations (any class) of exactly those runs whose input has that property, and nothing else.
+    #[serde(default, skip_serializing_if = "Option::is_none")]
+    pub predicate: Option<String>,
+}
+
+/// `sauce_height_gt_1000`: a loader run whose file ends in a SAUCE record declaring more than 1000 rows.
+pub fn input_predicate(name: &str, trace: &Trace) -> bool {
+    match name {
+        "sauce_height_gt_1000" => trace.events.iter().any(|ev| {
+            if let crate::trace::Ev::Load { hex, .. } = ev {
+                let b = crate::trace::from_hex(hex);
+                b.len() >= 128 && &b[b.len() - 128..b.len() - 123] == b"SAUCE" && u16::from_le_bytes([b[b.len() - 128 + 98], b[b.len() - 128 + 99]]) > 1000
+            } else {
+                false
+            }
+        }),
+        _ => false,
+    }
+}
+
+fn is_budget_class(class: &str) -> bool {
+    ["watchdog:", "alloc_budget:", "step_budget:", "depth_budget:", "abort:", "stall"].iter().any(|p| class.starts_with(p))
 }
 
 #[derive(Serialize, Deserialize, Clone, Debug, Default)]
@@ -377,8 +400,12 @@ pub fn run_check(prop: &str, tier: Tier, seed: u64) -> i32 {
     let mut known_classes: Vec<String> = Vec::new();
 
     // 1. pinned witnesses of known findings
+    let predicates: Vec<String> = known.findings.iter().filter(|k| k.property == prop).filter_map(|k| k.predicate.clone()).collect();
+    let covered_by_predicate = |class: &str, trace: &Trace| is_budget_class(class) && predicates.iter().any(|p| input_predicate(p, trace));
     for k in known.findings.iter().filter(|k| k.property == prop) {
-        known_classes.push(k.class.clone());
+        if k.predicate.is_none() {
+            known_classes.push(k.class.clone());
+        }
         let path = format!("{VERIF_DIR}/{}", k.witness);
         let Ok(text) = std::fs::read_to_string(&path) else {
             eprintln!("harness error: witness {path} missing");
@@ -436,6 +463,20 @@ pub fn run_check(prop: &str, tier: Tier, seed: u64) -> i32 {
     // A pinned C08 class stands for "this undo record is wrong when one of the quarantined triggers is in the
     // history". The same class reached by a history without any of them is a different violation and is reported.
     let mut narrowed: BTreeMap<String, Vec<(u64, Violation)>> = BTreeMap::new();
+    if !predicates.is_empty() {
+        // findings identified by a property of the input: runs that have it are covered, whatever their class
+        for (class, list) in &by_class {
+            if is_budget_class(class) {
+                let open: Vec<(u64, Violation)> = list.iter().filter(|(run, _)| !covered_by_predicate(class, &scenario::generate(prop, tier, seed, *run))).cloned().collect();
+                if open.len() != list.len() {
+                    let hidden = (list.len() - open.len()) as u64;
+                    suppressed_known += hidden;
+                    *suppressed_by_class.entry(format!("{class} (input predicate)")).or_insert(0) += hidden;
+                    narrowed.insert(class.clone(), open);
+                }
+            }
+        }
+    }
     if prop == "C08" {
         for (class, list) in &by_class {
             if known_classes.contains(class) {
@@ -448,8 +489,11 @@ pub fn run_check(prop: &str, tier: Tier, seed: u64) -> i32 {
     }
     for (class, list) in &by_class {
         let list = if let Some(open) = narrowed.get(class) {
+            if open.is_empty() {
+                continue;
+            }
             let hidden = (list.len() - open.len()) as u64;
-            if hidden > 0 {
+            if hidden > 0 && prop == "C08" {
                 suppressed_known += hidden;
                 suppressed_by_class.insert(class.clone(), hidden);
             }
@@ -552,8 +596,9 @@ pub fn run_check(prop: &str, tier: Tier, seed: u64) -> i32 {
             *agg.counters.entry(format!("death_not_this_property_{}", d.reason.split('(').next().unwrap_or("?"))).or_insert(0) += 1;
             continue;
         };
-        if known_classes.contains(&first.class) {
+        if known_classes.contains(&first.class) || covered_by_predicate(&first.class, &trace) {
             suppressed_known += 1;
+            *suppressed_by_class.entry(format!("{} (death)", first.class)).or_insert(0) += 1;
             continue;
         }
         if death_classes.contains_key(&first.class) {
